@@ -440,7 +440,7 @@ def _run_pair(case, ctx):
         if bad:
             cbad, pbad = "c" in bad, any(t in bad for t in ("py", "pys"))
             clause = "py-vs-c" if (cbad and pbad) else ("c-vs-formula" if cbad else "py-vs-formula")
-            if feats.get("novolfn"):
+            if feats.get("novolfn") and cls != "mono-invalid":
                 clause = "py-vs-c"
             if cbad and pbad:
                 # both differ from the formula: do they at least agree with each other?
